@@ -192,6 +192,41 @@ def rule_bp(ctx, rep):
         rep.check(bool(src), "C19.bp", name + ".restores-saved-mask", "restores the mask saved by before_fork", "does not restore saved_fork_signal_mask", [rs[0].where()])
 
 
+def rule_helpers(ctx, rep):
+    """Threads the library creates itself (call_rcu helpers, the defer reclaimer, the hash table's resize worker and its per-partition
+    helpers) never run an application signal handler: they are created while the creator has *all* signals blocked, so they start with
+    a full mask - before they have registered as readers a handler's read-side section on them would be invisible to grace periods
+    (README, `Interaction with signal handlers`).  Blocking only inside the new thread leaves its first instructions exposed."""
+    n = 0
+    for lib in ("memb", "mb", "qsbr", "bp", "cds"):
+        m = ctx.mod(lib, "perfn")
+        for f in m.defined():
+            pcs = [i for i in f.all_insts() if i.op == "call" and i.callee == "pthread_create"]
+            if not pcs:
+                continue
+            rep.touch(f)
+            must = lockset.compute(f)
+            for c in pcs:
+                n += 1
+                inst = "%s.%s@%d" % (lib, f.srcname, c.line)
+                if not rep.check(lockset.SIGBLOCKED in must.get(c.id, ()), "C19.helpers", inst + ".created-masked", "the thread is created while the creator has signals blocked (it inherits the full mask)",
+                                 "pthread_create() runs with the creator's ordinary signal mask: the new library thread can take an application signal before it has blocked signals / registered - "
+                                 "a handler's rcu_read_lock() section on it is not waited for by any grace period", [c.where()]):
+                    continue
+                blk = [b for b in f.all_insts() if b.op == "call" and b.callee == "pthread_sigmask" and ir.const_of(f, b.args[0]) == 0 and f.dominates(b, c)]
+                for b in blk[-1:]:
+                    ap = b.d["aps"][1]
+                    fills = [x for x in f.calls("sigfillset") if ap is not None and x.d["aps"][0] and x.d["aps"][0]["base"] == ap["base"] and f.dominates(x, b)]
+                    cut = [x for x in f.all_insts() if x.op == "call" and x.callee in ("sigemptyset", "sigdelset") and ap is not None and x.d["aps"][0] and x.d["aps"][0]["base"] == ap["base"]]
+                    if fills and not cut:
+                        rep.ok("C19.helpers", inst + ".full-set", "the set blocked around pthread_create is filled by sigfillset()")
+                    elif cut:
+                        rep.bad("C19.helpers", inst + ".full-set", "the set blocked around pthread_create has signals removed (%s): the new thread can run a handler for them" % cut[0].callee, [cut[0].where()])
+                    else:
+                        rep.unk("C19.helpers", inst + ".full-set", "the set blocked around pthread_create is not filled by a dominating sigfillset() in this function")
+    pat.require(n >= 9, "only %d pthread_create sites found in the libraries" % n)
+
+
 def rule_eintr(ctx, rep):
     """a handler interrupting synchronize_rcu()/rcu_barrier() makes their futex waits return EINTR: every wait re-checks
     its word before proceeding (shared with C02/C03/C04.waitloop)"""
@@ -216,6 +251,7 @@ RULES = [
     ("C19.once", rule_once),
     ("C19.async", rule_async),
     ("C19.bp", rule_bp),
+    ("C19.helpers", rule_helpers),
     ("C19.const", lambda c, r: pat.shared(__import__("sa.rules.c01", fromlist=["x"]).rule_const, "C19.const", lambda x: any(k in x["instance"] for k in ("read_lock", "read_unlock", "read_ongoing")) or x["status"] != "pass")(c, r)),   # nesting mask / count constants: a handler nests at any depth
 ]
 FLOORS = {}
